@@ -386,9 +386,9 @@ func runHoleTree(r *ev.Run, id string, idx int) {
 	for hi, h := range pickHoles {
 		hl := h.end - h.start
 		offs := []int{
-			h.start,                             // the call starts with the hole
-			h.start + 1 + rng.Intn(hl-1),        // ... strictly inside it
-			max(0, h.start-1-rng.Intn(3000)),    // ... in what precedes the hole and runs into it
+			h.start,                              // the call starts with the hole
+			h.start + 1 + rng.Intn(hl-1),         // ... strictly inside it
+			max(0, h.start-1-rng.Intn(3000)),     // ... in what precedes the hole and runs into it
 			max(0, h.end-4097-rng.Intn(hl-4096)), // ... so that it leaves the hole after more than a page
 		}
 		for oi, off := range offs {
